@@ -683,3 +683,4 @@ PROPS["C03"]["rule"] += " Patterns may use property variables, and one case in t
 PROPS["C03"]["rule"] += " One case in ten is a not-chain: several candidate bindings go into a `not` whose inside reads them (another `not`, a script comparing the variable, an `and` of both)."
 PROPS["C08"]["rule"] += " A property written as a fact may carry a deleteWith of its own that does not name its target (empty, a dangling id, another id); it still goes with its target."
 PROPS["C14"]["rule"] += " Values in which one object occurs twice (shared, not circular) must come back intact; the self-referring family includes function values with properties."
+PROPS["C12"]["rule"] += " In a quarter of the workloads every rule has two actions (which run in parallel) that both write into the object the rule's `when` binds from the event."
